@@ -320,6 +320,36 @@ pub fn check_c01(input: &str, stats: &mut Stats, rng: &mut Rng) {
         MarkedYaml::load_from_parser(&mut p)
     });
 
+    // the text carried by the events (scalar values, resolved tags) is part of the work: it is bounded
+    // by a linear function of the input length as well
+    if let Some(p) = &first {
+        let mut payload = 0u64;
+        let mut tag_part = 0u64;
+        for (e, _) in &p.events {
+            match e {
+                SEv::Scalar { v, tag, .. } => {
+                    payload += v.len() as u64;
+                    if let Some((h, sfx)) = tag {
+                        tag_part += (h.len() + sfx.len()) as u64;
+                    }
+                }
+                SEv::SeqStart { tag: Some((h, sfx)), .. } | SEv::MapStart { tag: Some((h, sfx)), .. } => tag_part += (h.len() + sfx.len()) as u64,
+                _ => {}
+            }
+        }
+        payload += tag_part;
+        stats.max("max_event_payload_bytes_per_input_byte_x100", payload * 100 / (input.len() as u64 + 1));
+        if payload > 8 * (input.len() as u64 + 1) + 64 {
+            let via_tags = tag_part * 2 > payload;
+            viol(
+                stats,
+                format!("C01/work-bound/event-payload/{}", if via_tags { "tag-prefix-expansion" } else { "other" }),
+                format!("the events of a {}-byte input carry {payload} bytes of text ({tag_part} of them in resolved tags); bound 8*(n+1)+64", input.len()),
+                case_json(input, vec![]),
+            );
+        }
+    }
+
     let nt = first.as_ref().is_some_and(nontrivial);
     stats.eval(if nt { Some(input.as_bytes()) } else { None });
     if nt && stats.want_sample() && input.len() > 3 {
